@@ -209,6 +209,41 @@ def g_exit1(c, hint=None):
         rc, out, err = c.run(["-t", "toml", "small.json", second], stdin=b"x = 1\n")
         if rc != 1 or out != one:
             bad.append("`xt -t toml small.json %s`: the second input must be refused (exit 1) with only the first document on stdout: exit=%d stdout=%r" % (second, rc, out[:80]))
+    # a path whose size reads as 0 but which has content (a FIFO): it is read like any other input
+    try:
+        import threading
+        for content, want_rc in ((CONTENT["json"], 0), (b'{"a":', 1)):
+            fifo = os.path.join(c.dir, "pipe.json")
+            if os.path.exists(fifo):
+                os.remove(fifo)
+            os.mkfifo(fifo)
+
+            def feed(fifo=fifo, content=content):
+                try:
+                    with open(fifo, "wb") as f:
+                        f.write(content)
+                except OSError:
+                    pass
+            t = threading.Thread(target=feed, daemon=True)
+            t.start()
+            try:
+                rc, out, err = c.run(["pipe.json"], timeout=20)
+            except subprocess.TimeoutExpired:
+                rc, out, err = -999, b"", b"timeout"
+            # if xt never opened/read the FIFO the feeder is still blocked: unblock it
+            if t.is_alive():
+                try:
+                    fd = os.open(fifo, os.O_RDONLY | os.O_NONBLOCK)
+                    os.close(fd)
+                except OSError:
+                    pass
+                t.join(2)
+            want_out = c.run(["doc.json"])[1] if want_rc == 0 else None
+            if rc != want_rc or (want_out is not None and out != want_out):
+                bad.append("`xt pipe.json` (a named pipe holding %r): exit=%d stdout=%r stderr=%r - a FIFO must be read and translated like a file" % (content[:20], rc, out[:40], err[:80]))
+            os.remove(fifo)
+    except (OSError, AttributeError):
+        pass
     rc, out, err = c.run(["-", "-"], stdin=b"1")
     if rc != 1 or not err.startswith(b"xt error"):
         bad.append("`xt - -`: %r" % ((rc, err),))
